@@ -467,6 +467,7 @@ func c04Enum(c *core.Ctx, p c04Params) {
 		c04NoQueue(c, "svc")
 		c04NoQueue(c, "a.b")
 		c04NoQueue(c, "")
+		c04NoLogger(c)
 		c04Restart(c, 1)
 		c04Restart(c, 3)
 	}
@@ -645,6 +646,52 @@ func c04Nats(c *core.Ctx, p c04Params) {
 		<-ret
 	}
 	c.Sample(map[string]interface{}{"scenario": "bursts of 400 requests over an embedded NATS server, default-valued configuration", "rounds": p.N})
+}
+
+// c04NoLogger: the service runs without logger (SetLogger(nil)) but with an OnError
+// callback. Everything that makes the library log an error - panicking handlers,
+// second replies, malformed payloads - still gets exactly one response and leaves the
+// service up.
+func c04NoLogger(c *core.Ctx) {
+	tbl := &scriptTable{}
+	var onErr int64
+	rg := newRig("svc", func(s *res.Service) {
+		scriptedService(s, tbl, nil)
+	})
+	rg.S.SetLogger(nil)
+	rg.S.SetOnError(func(_ *res.Service, msg string) { atomic.AddInt64(&onErr, 1) })
+	if err := rg.start(); err != nil {
+		c.Inconclusive("service failed to start: " + err.Error())
+		return
+	}
+	defer rg.stop()
+	scripts := []script{
+		{{Op: "panic", K: "str"}}, {{Op: "panic", K: "err"}}, {{Op: "panic", K: "int"}}, {{Op: "panic", K: "runtime"}}, {{Op: "panic", K: "reserr"}},
+		{{Op: "reply", K: "ok", V: "nil"}, {Op: "panic", K: "str"}}, {{Op: "reply", K: "ok", V: "nil"}, {Op: "reply", K: "ok", V: "nil"}},
+		{{Op: "reply", K: "ok", V: "chan"}}, {}, {{Op: "reply", K: "ok", V: "map"}},
+	}
+	for _, sc := range scripts {
+		for _, payload := range []string{`{"cid":"abc","params":{"a":1}}`, `{"cid":`, ``} {
+			id := tbl.add(scriptEntry{sc: sc, getSc: script{{Op: "reply", K: "model"}}})
+			subj := "call.svc.u." + id + ".do"
+			start := rg.C.Len()
+			inbox, done, delivered := rg.send(subj, []byte(payload))
+			c.Eval(1)
+			c.Obs("nologger_requests", 1)
+			w := map[string]interface{}{"logger": "nil (SetLogger(nil))", "on_error_callback": true, "subject": subj, "script": sc.String(), "payload": payload}
+			if delivered != 1 || !waitCh(done, 10*time.Second) {
+				c.Inconclusive("no-logger scenario: request not processed: " + subj)
+				return
+			}
+			if resp, _ := replies(rg.C.Since(start), inbox); len(resp) != 1 {
+				w["responses"] = payloadStrs(resp)
+				c.Violation("C04/no-response:no-logger", fmt.Sprintf("service without logger: %s (script [%s]) got %d responses", subj, sc.String(), len(resp)), w)
+			}
+			tbl.del(id)
+			c.Distinct("nologger/" + sc.String() + "/" + payload)
+		}
+	}
+	c.Obs("on_error_callbacks", atomic.LoadInt64(&onErr))
 }
 
 // c04Restart: requests to resources whose work was still queued when the
